@@ -1,6 +1,7 @@
 import Ruint.Lemmas.Add
 import Ruint.Lemmas.GenUintWrap
 import Ruint.Lemmas.GenUint
+import Ruint.Lemmas.GenBinOps
 
 /-!
 # C01 — addition, subtraction and negation are exact in the ring mod 2^BITS
@@ -294,5 +295,22 @@ theorem gen_wrapping_eq (bits : ℕ) (hN : nlimbs bits < 2 ^ 64) (a b : List ℕ
 theorem gen_abs_diff_eq (bits : ℕ) (hN : nlimbs bits < 2 ^ 64) (a b : List ℕ) (ha : Canon bits a) (hb : Canon bits b) :
     Ruint.Gen.uint_abs_diff (nlimbs bits + 1) bits (nlimbs bits) a b = absDiff bits a b :=
   Ruint.GenUintWrap.abs_diff_eq bits hN a b ha.1 hb.1 ha.2.1 hb.2.1
+
+/-- the six operator shapes of `+` and `-` (`impl_bin_op!`, regenerated from `src/macros.rs` for the invocations in `src/add.rs`)
+    are `wrapping_add` / `wrapping_sub` on the same operands in the same order. -/
+theorem gen_add_sub_operator_shapes (f bits L : Nat) (a b : List Nat) :
+    (Ruint.Gen.op_add_assign_val f bits L a b = Ruint.Gen.uint_wrapping_add f bits L a b
+      ∧ Ruint.Gen.op_add_assign_ref f bits L a b = Ruint.Gen.uint_wrapping_add f bits L a b
+      ∧ Ruint.Gen.op_add_val_val f bits L a b = Ruint.Gen.uint_wrapping_add f bits L a b
+      ∧ Ruint.Gen.op_add_val_ref f bits L a b = Ruint.Gen.uint_wrapping_add f bits L a b
+      ∧ Ruint.Gen.op_add_ref_val f bits L a b = Ruint.Gen.uint_wrapping_add f bits L a b
+      ∧ Ruint.Gen.op_add_ref_ref f bits L a b = Ruint.Gen.uint_wrapping_add f bits L a b)
+    ∧ (Ruint.Gen.op_sub_assign_val f bits L a b = Ruint.Gen.uint_wrapping_sub f bits L a b
+      ∧ Ruint.Gen.op_sub_assign_ref f bits L a b = Ruint.Gen.uint_wrapping_sub f bits L a b
+      ∧ Ruint.Gen.op_sub_val_val f bits L a b = Ruint.Gen.uint_wrapping_sub f bits L a b
+      ∧ Ruint.Gen.op_sub_val_ref f bits L a b = Ruint.Gen.uint_wrapping_sub f bits L a b
+      ∧ Ruint.Gen.op_sub_ref_val f bits L a b = Ruint.Gen.uint_wrapping_sub f bits L a b
+      ∧ Ruint.Gen.op_sub_ref_ref f bits L a b = Ruint.Gen.uint_wrapping_sub f bits L a b) :=
+  ⟨Ruint.GenBinOps.add_shapes f bits L a b, Ruint.GenBinOps.sub_shapes f bits L a b⟩
 
 end Ruint.C01
